@@ -513,6 +513,12 @@ fn main() {
             vec![m, u]
         });
         for mut m in res {
+            m.sample(|| {
+                let mut r = rand::rngs::StdRng::seed_from_u64(1);
+                let s = Uniform::new(Hsv::<encoding::Srgb, f64>::new(350.0, 0.2, 0.3), Hsv::new(370.0, 0.6, 0.9));
+                let v: Vec<Vec<f64>> = (0..3).map(|_| { let c: Hsv<encoding::Srgb, f64> = s.sample(&mut r); vec![c.hue.into_positive_degrees(), c.saturation, c.value] }).collect();
+                json!({"Uniform::new(Hsv(350, .2, .3), Hsv(370, .6, .9)) samples": v})
+            });
             if m.name == n1 {
                 m.tolerance = Some("8 ulp relative on component containment (the cone samplers go through cbrt/sqrt and back), 64 ulp of 360 on the hue arc".into());
             } else {
